@@ -182,6 +182,56 @@ func configs3(r *ev.Run) {
 		}
 		r.Sample(cfgCase{"MarchingCubesFilter", sd.name, 3, "reference-aabb", sd.delta, fmt.Sprintf("tiles rejected by filters over all configs: %d", nTiles)})
 	}
+	// lattices large enough to cross the block-splitting thresholds of the filter pools (a queued block is
+	// split again by its worker only when the lattice has more than 64*4096 cells)
+	for _, sd := range []solid3{
+		{"large-lattice-sphere", &model3d.Sphere{Center: model3d.XYZ(0.1, 0.2, -0.1), Radius: 1}, 0.03},
+		{"large-lattice-two-spheres", model3d.JoinedSolid{&model3d.Sphere{Center: model3d.XYZ(0, 0, 0), Radius: 0.5}, &model3d.Sphere{Center: model3d.XYZ(2.2, 0.3, 0.4), Radius: 0.4}}, 0.035},
+	} {
+		runtime.GOMAXPROCS(16)
+		ref := model3d.MarchingCubes(sd.s, sd.delta)
+		refS := faces(ref)
+		boxes := triBoxes(ref)
+		// coarse spatial hash of the boxes keeps the reference filter fast
+		grid := map[[3]int][]aabb{}
+		cell := 8 * sd.delta
+		key := func(c model3d.Coord3D) [3]int {
+			return [3]int{int(math.Floor(c.X / cell)), int(math.Floor(c.Y / cell)), int(math.Floor(c.Z / cell))}
+		}
+		for _, b := range boxes {
+			lo, hi := key(b.min), key(b.max)
+			for x := lo[0]; x <= hi[0]; x++ {
+				for y := lo[1]; y <= hi[1]; y++ {
+					for z := lo[2]; z <= hi[2]; z++ {
+						grid[[3]int{x, y, z}] = append(grid[[3]int{x, y, z}], b)
+					}
+				}
+			}
+		}
+		fastRef := func(rc *model3d.Rect) bool {
+			lo, hi := key(rc.MinVal), key(rc.MaxVal)
+			for x := lo[0]; x <= hi[0]; x++ {
+				for y := lo[1]; y <= hi[1]; y++ {
+					for z := lo[2]; z <= hi[2]; z++ {
+						if refFilter(grid[[3]int{x, y, z}], 0)(rc) {
+							return true
+						}
+					}
+				}
+			}
+			return false
+		}
+		for _, procs := range []int{1, 3, 16} {
+			runtime.GOMAXPROCS(procs)
+			for fname, f := range map[string]func(*model3d.Rect) bool{"always-true": func(*model3d.Rect) bool { return true }, "reference-aabb": fastRef} {
+				r.Eval(1)
+				r.NontrivialKey(fmt.Sprintf("large/%s/%s/%d", sd.name, fname, procs))
+				if got := faces(model3d.MarchingCubesFilter(sd.s, f, sd.delta)); got != refS {
+					r.Violation("config/MarchingCubesFilter/"+fname, "face set differs from unfiltered marching cubes on a lattice above the block-splitting threshold", cfgCase{"MarchingCubesFilter", sd.name, procs, fname, sd.delta, ""})
+				}
+			}
+		}
+	}
 	runtime.GOMAXPROCS(16)
 	// coarse-to-fine on solids whose features are larger than the coarse spacing
 	for _, sd := range []solid3{
@@ -251,6 +301,25 @@ func configs2(r *ev.Run) {
 				want := meshq.SegMultiset2(model2d.MarchingSquaresSearch(sh.s, delta, 2).SegmentSlice())
 				if got := meshq.SegMultiset2(model2d.MarchingSquaresC2F(sh.s, delta*k, delta, 0, 2).SegmentSlice()); got != want {
 					r.Violation("config/MarchingSquaresC2F", "segment set differs from MarchingSquaresSearch at the fine spacing", cfgCase{"MarchingSquaresC2F", sh.name, procs, "", delta, fmt.Sprintf("bigDelta=%g", delta*k)})
+				}
+			}
+		}
+		{
+			// above the 64*4096-square threshold of the marching-squares pool
+			bigDelta := 0.0045
+			runtime.GOMAXPROCS(16)
+			want := meshq.SegMultiset2(model2d.MarchingSquares(sh.s, bigDelta).SegmentSlice())
+			for _, procs := range []int{1, 3} {
+				runtime.GOMAXPROCS(procs)
+				for fname, f := range map[string]func(*model2d.Rect) bool{"always-true": func(*model2d.Rect) bool { return true }, "sdf-conservative": func(rc *model2d.Rect) bool {
+					c := rc.MinVal.Mid(rc.MaxVal)
+					return math.Abs(sh.sdf.SDF(c)) <= rc.MinVal.Dist(c)+bigDelta*math.Sqrt2
+				}} {
+					r.Eval(1)
+					r.NontrivialKey(fmt.Sprintf("large2d/%s/%s/%d", sh.name, fname, procs))
+					if got := meshq.SegMultiset2(model2d.MarchingSquaresFilter(sh.s, f, bigDelta).SegmentSlice()); got != want {
+						r.Violation("config/MarchingSquaresFilter/"+fname, "segment set differs from unfiltered marching squares on a lattice above the block-splitting threshold", cfgCase{"MarchingSquaresFilter", sh.name, procs, fname, bigDelta, "large lattice"})
+					}
 				}
 			}
 		}
